@@ -528,6 +528,13 @@ def formula_only_corpus():
     out.append(D([A2, B2, C3], cross('ABC', 'C', [['LatinSquare', ['A', 'B', 'C']], ['MinimumTrials', 15]])))
     out.append(D([A2, B3, C3], cross('ABC', 'A', [['LatinSquare', ['B', 'A', 'C']], ['MinimumTrials', 9]])))
     out.append(D([A2, B3, C2], cross('ABC', 'AC', [['LatinSquare', ['A', 'B', 'C']], ['MinimumTrials', 8]])))
+    # partial last segment with two longest factors; a preamble trial before the first segment; main factor listed first;
+    # a rectangle inside a Repeat (the pattern restarts in each repetition)
+    out.append(D([A2, B3, C3], cross('ABC', 'B', [['LatinSquare', ['A', 'B', 'C']], ['MinimumTrials', 10]])))
+    out.append(D([A2, B2, C3, TRA], cross('ABCR', 'R', [['LatinSquare', ['A', 'B', 'C']], ['MinimumTrials', 11]])))
+    out.append(D([A3, B2, C2], cross('ABC', 'A', [['LatinSquare', ['A', 'B', 'C']], ['MinimumTrials', 13]])))
+    out.append(D([A2, B3, C2], repeat(cross('ABC', 'B', [['LatinSquare', ['A', 'B', 'C']], ['MinimumTrials', 6]]),
+                                      [['MinimumTrials', 12]])))
     return out
 
 
